@@ -15,6 +15,12 @@
     * `OneSidedParent a b`     (F-C19j)  union with a parent-less receiver and an argument that has a parent
 -/
 import BioCantor.Proofs.AlgOverlap
+import BioCantor.Proofs.AlgIntersect
+import BioCantor.Proofs.AlgGaps
+import BioCantor.Proofs.AlgUnion
+import BioCantor.Proofs.AlgExtend
+import BioCantor.Proofs.AlgDistance
+import BioCantor.Proofs.AlgMisc
 namespace BioCantor.Props.C02
 open BioCantor BioCantor.Spec BioCantor.Model BioCantor.Proofs
 
@@ -31,10 +37,121 @@ theorem overlap_emptyArg_deviates :
       (ans (hasOverlapP (.single (0, 5) .plus, []) (.empty, []) true false false)) = false := by
   decide
 
+/-- T2: the intersection covers exactly the positions common to both operands (common to both full spans with
+    `full_span`), is on the receiver's strand, well formed, inside the parent's sequence, has the receiver's parent
+    (up to "equal except location"), and has no empty block; incompatible parents and — under `match_strand` —
+    different strands give `EmptyLocation`; `strict_parent_compare` refuses incompatible parents. All layouts. -/
+theorem intersection_spec (a b : PLoc) (ha : WFP a) (hb : WFP b) (ms fs strict : Bool)
+    (hq : ¬ EmptyArgQuirk a b ms) :
+    okIntersection a b ms fs strict (ans (intersectionP a b ms fs strict)) = true :=
+  intersectionP_ok a b ha hb ms fs strict hq
+
+/-- T2 (normal form): for operands that are not self-overlapping, and for the span variant, no block of the
+    intersection ends where the next one begins. -/
+theorem intersection_normal (a b : PLoc) (ha : WFP a) (hb : WFP b) (ms fs strict : Bool) :
+    okIntersectionNormal a b fs (ans (intersectionP a b ms fs strict)) = true :=
+  intersectionP_normal a b ha hb ms fs strict
+
+/-- T7a: `optimize_blocks` keeps the multiset of covered positions, drops every empty block, returns a
+    SingleInterval for one block / EmptyLocation for none, keeps strand and parent, and yields the normal form for
+    layouts that are not self-overlapping. -/
+theorem optimize_spec (a : PLoc) (ha : WFP a) : okOptimize a (ans (optimizeBlocksP a)) = true :=
+  optimizeBlocksP_ok a ha
+
+/-- T7b: `optimize_and_combine_blocks` keeps the covered set and yields ascending non-empty blocks separated by at
+    least one position (all layouts, nested blocks included — F-C02b repaired). -/
+theorem optimizeAndCombine_spec (a : PLoc) (ha : WFP a) :
+    okOptCombine a (ans (optimizeAndCombineP a)) = true :=
+  optimizeAndCombineP_ok a ha
+
+/-- T6: `gaps_location` covers exactly the uncovered positions between the first and the last non-empty block
+    (`EmptyLocation` when there is none); an unstranded multi-block location is refused. -/
+theorem gaps_spec (a : PLoc) (ha : WFP a) : okGaps a (ans (gapsLocationP a)) = true :=
+  gapsLocationP_ok a ha
+
+/-- T6: `gap_list` lists the same gaps as single intervals on the location's strand in 5'→3' order. -/
+theorem gapList_spec (a : PLoc) (ha : WFP a) : okGapList a (ans (gapListP a)) = true :=
+  gapListP_ok a ha
+
+/-- T3: the union covers exactly the positions of either operand, keeps strand and parent, is well formed and inside
+    the parent's sequence; it is refused exactly for EmptyLocation operands, different strands and incompatible
+    parents. All layouts and shapes (single/compound in either order, compound ∪ compound through the sorted
+    block-by-block merge). Outside F-C19j. -/
+theorem union_spec (a b : PLoc) (ha : WFP a) (hb : WFP b) (hj : ¬ OneSidedParent a b) :
+    okUnion a b (ans (unionP a b)) = true :=
+  unionP_ok a b ha hb hj
+
+/-- T3 (disjointness): operands that are not self-overlapping give a union whose blocks do not overlap. -/
+theorem union_disjoint (a b : PLoc) (ha : WFP a) (hb : WFP b) (hj : ¬ OneSidedParent a b) :
+    okUnionDisjoint a b (ans (unionP a b)) = true :=
+  unionP_disjoint a b ha hb hj
+
+/-- F-C19j witness: with a parent-less receiver the modelled code combines locations of different parents (and
+    leaves the overlapping blocks unmerged) although the property demands a refusal. -/
+theorem union_oneSided_deviates :
+    okUnion (.single (0, 5) .plus, []) (.single (3, 8) .plus, [(some "b", none, none)])
+      (ans (unionP (.single (0, 5) .plus, []) (.single (3, 8) .plus, [(some "b", none, none)]))) = false := by
+  decide
+
+/-- T3': `union_preserve_overlaps` keeps the multiset of covered positions of both operands together, drops empty
+    blocks, and is in normal form when the blocks of both operands together do not overlap; refusals as for union. -/
+theorem unionPreserve_spec (a b : PLoc) (ha : WFP a) (hb : WFP b) (hj : ¬ OneSidedParent a b) :
+    okUnionPreserve a b (ans (unionPreserveP a b)) = true :=
+  unionPreserveP_ok a b ha hb hj
+
+/-- T7c: `merge_overlapping` returns a location that is not self-overlapping unchanged, and otherwise one with the
+    same covered set whose blocks do not overlap. -/
+theorem mergeOverlapping_spec (a : PLoc) (ha : WFP a) :
+    okMergeOverlapping a (ans (mergeOverlappingP a)) = true :=
+  mergeOverlappingP_ok a ha
+
+/-- T8: `extend_absolute` covers the old positions plus the two flanks; it is refused exactly when a distance is
+    negative, a flank would start below 0 or end beyond the parent's sequence, or the location is EmptyLocation. -/
+theorem extendAbsolute_spec (a : PLoc) (ha : WFP a) (es ee : Int) :
+    okExtendAbs a es ee (ans (extendAbsoluteP a es ee)) = true :=
+  extendAbsoluteP_ok a ha es ee
+
+/-- T8 (normal form): a CompoundInterval that is not self-overlapping is extended to a location in normal form. -/
+theorem extendAbsolute_normal (a : PLoc) (ha : WFP a) (es ee : Int) :
+    okExtendAbsNormal a (ans (extendAbsoluteP a es ee)) = true :=
+  extendAbsoluteP_normal a ha es ee
+
+/-- T8: `extend_relative` is `extend_absolute` with the arguments swapped on the minus strand and needs a direction. -/
+theorem extendRelative_spec (a : PLoc) (ha : WFP a) (up down : Int) :
+    okExtendRel a up down (ans (extendRelativeP a up down)) = true :=
+  extendRelativeP_ok a ha up down
+
+/-- T9: `distance_to` is the documented function of the end points (STARTS, ENDS, OUTER) / 0 for overlapping
+    operands and otherwise the smallest block-to-block gap (INNER); refused for EmptyLocation operands and for
+    incompatible parents. All layouts. -/
+theorem distance_spec (a b : PLoc) (ha : WFP a) (hb : WFP b) (ty : DistType) :
+    okDistance a b (distCode ty) (ans (distanceP a b ty)) = true :=
+  distanceP_ok a b ha hb ty
+
+/-- T10a: `reverse` keeps the span, mirrors the block structure inside it and flips the strand. -/
+theorem reverse_spec (a : PLoc) (ha : WFP a) : okReverse a (ans (reverseP a)) = true :=
+  reverseP_ok a ha
+
+/-- T10b: `reverse_strand` keeps the blocks and flips the strand. -/
+theorem reverseStrand_spec (a : PLoc) (ha : WFP a) : okReverseStrand a (ans (reverseStrandP a)) = true :=
+  reverseStrandP_ok a ha
+
+/-- T10c: `reset_strand` keeps the blocks and sets the strand (EmptyLocation refuses). -/
+theorem resetStrand_spec (a : PLoc) (ha : WFP a) (ns : Strand) :
+    okResetStrand a ns (ans (resetStrandP a ns)) = true :=
+  resetStrandP_ok a ha ns
+
+/-- T10d: `shift_position` moves every block by `k`; refused exactly when the result would start below 0 or end
+    beyond the parent's sequence. -/
+theorem shift_spec (a : PLoc) (ha : WFP a) (k : Int) : okShift a k (ans (shiftP a k)) = true :=
+  shiftP_ok a ha k
+
 -- non-vacuity of the hypotheses: a minus-strand layout with a zero-length block, a 0-bp gap and a nested block, on a
 -- parent with sequence and a grand-parent
 example : WFP (.compound ⟨[(0, 5), (2, 3), (5, 7), (5, 5)], .minus⟩,
     [(some "chrA", none, some ['A', 'C', 'G', 'T', 'A', 'C', 'G']), (some "g1", none, none)]) := by decide
 example : ¬ EmptyArgQuirk (.single (0, 5) .plus, [(some "chrA", none, none)]) (.empty, []) true := by decide
+example : ¬ OneSidedParent (.single (0, 5) .plus, [(some "chrA", none, none)])
+    (.compound ⟨[(1, 2), (4, 4)], .plus⟩, [(some "chrA", none, none), (some "g", none, none)]) := by decide
 
 end BioCantor.Props.C02
